@@ -87,6 +87,12 @@ func init() {
 				"save %N from @a",
 				"save [USD *] from @a",
 				sendFixed("USD", "@a allowing overdraft up to %K", "{ max %C to @b remaining kept }"),
+				// postings from an account to itself, sends that post nothing (all kept), sends to @world
+				sendFixed("USD", "@a", "@a"),
+				sendFixed("USD", "{ @a @world }", "{ 1/2 to @a 1/2 to @b }"),
+				sendFixed("USD", "@a", "{ remaining kept }"),
+				sendAll("USD", "@a", "{ max %C kept remaining to @b }"),
+				sendFixed("USD", "@a", "@world"),
 				`set_tx_meta("k", 42)`,
 				`set_tx_meta("k", @acc)`,
 				`set_account_meta(@a, "k", [USD 7])`,
@@ -127,7 +133,7 @@ func init() {
 			n := len(stm)
 			for i := 0; i < n; i++ {
 				for j := 0; j < n; j++ {
-					if tier != "thorough" && i >= 8 && j >= 8 && (i+j)%2 == 1 {
+					if tier != "thorough" && i >= 13 && j >= 13 && (i+j)%2 == 1 {
 						continue
 					}
 					cases = append(cases, c09Case("two-statements", []string{stm[i], stm[j]}, nil))
